@@ -30,11 +30,14 @@ def failed_scan_is_remembered(F, res, rule="K14"):
     remainder in a loop and can leave it by exhaustion must record that in the lexer's state, and the walk must sit behind a test of
     that state."""
     n, bad = 0, []
+    from rules import c01 as _c01v
     for p_, f in sorted(F.fns.items()):
         if not p_.startswith("syntax::lexer::") or not f.blocks or "{closure" in p_:
             continue
         if not any(FL.short(callee(t) or callee_def(t) or "").endswith("Lexer::remainder") for _b, t in f.calls()):
             continue
+        if p_ == "syntax::lexer::lex_string":
+            f = _c01v.lexer_callback_view(F)      # the scanning loop may live in a private helper
         d = FL.Defs(f)
         for hd in sorted({h for _t, h in f.back_edges()}):
             loop = set()
@@ -177,6 +180,8 @@ def run(F, res, tier):
     _c10.same_class_is_a_no_op(F, res, rule="K13")
     _c10.display_is_budgeted(F, res, rule="K15")
     _c10.recursion_follows_nesting_not_length(F, res, rule="K16")
+    from rules import c13 as _c13k
+    _c13k.last_text_wins(F, res, rule="K17")   # snapshots taken after a change see its last text
     # never a panic: a query cycle met while salsa validates a memo after a change panics on every later snapshot
     _c10.cycles_are_cut(F, res, rule="K9")
     from rules import c09 as _c09
